@@ -99,6 +99,19 @@ def main():
     for kind, pid, name, path in jobs:
         copy = make_copy()
         try:
+            one_job(kind, pid, name, path, copy, args, results)
+        except Exception as e:
+            print('%-7s %-4s %-40s NOT RUN: %s' % (kind, pid, name, str(e)[:160]))
+            results.append({'kind': kind, 'property': pid, 'name': name, 'detected': False, 'check_rc': None,
+                            'error': str(e)[:300]})
+        finally:
+            shutil.rmtree(copy, ignore_errors=True)
+    finish(results, args)
+    return 1 if [r for r in results if not r['detected']] else 0
+
+
+def one_job(kind, pid, name, path, copy, args, results):
+        if True:
             if kind == 'mutant':
                 with open(path) as f:
                     spec = json.load(f)
@@ -127,8 +140,9 @@ def main():
                 kind, pid, name, tests_ok, rc, 'DETECTED' if rc == 1 else ('MISSED' if rc == 0 else 'ERROR'),
                 wall, '; '.join(sigs[:3])))
             sys.stdout.flush()
-        finally:
-            shutil.rmtree(copy, ignore_errors=True)
+
+
+def finish(results, args):
     os.makedirs(os.path.join(VERIF, 'reports'), exist_ok=True)
     outp = os.path.join(VERIF, 'reports', 'sensitivity.json')
     old = []
